@@ -59,6 +59,9 @@ def cases(tier, seed):
         for drive in ("field", "tdep"):
             for scr in (False,) if quick else (False, True):
                 out.append(dict(fam="none", dev=d, drive=drive, screening=scr))
+    # thermalisation first: the recorded stage (including its frame 0, the thermalised state) must hold the terminal value
+    for d, v in itertools.product(devs[:2], VALUES):
+        out.append(dict(fam="pin", dev=d, value=v, drive="tdep", screening=False, thermal=True))
     # non-initial starts: the run is seeded with the final state of a run that used another terminal value
     for d in devs[:1] if quick else devs[:3]:
         for a, b in itertools.permutations(["None", "0", "1", "0.6+0.8j"], 2):
@@ -180,7 +183,7 @@ def run_pin(case, dev=None, path="out.h5", seed=None):
     nsteps = 8
     opts = tdgl.SolverOptions(
         solve_time=nsteps * dt, dt_init=dt, dt_max=dt, adaptive=False, save_every=1, output_file=path, terminal_psi=v,
-        include_screening=case["screening"], screening_tolerance=1e-2, progress_interval=10**9,
+        include_screening=case["screening"], screening_tolerance=1e-2, progress_interval=10**9, skip_time=(3 * dt if case.get("thermal") else 0.0),
     )
     kw = _drive(case["dev"], case["drive"])
     try:
